@@ -76,8 +76,16 @@ let hevc_before ns = Hs.u_before_video Hs.hevc_unit_type Hs.hevc_vcl ns
 let hevc_upto ns = Hs.u_types_upto Hs.hevc_unit_type Hs.hevc_vcl ns
 let has_t k l = L.exists (fun t -> int_of_n t = k) l
 
+(* shortcut for the pattern enumerations (most inputs there have bytes in front of the first start code): an
+   input that does not begin with 00 00 01 / 00 00 00 01 is not handed to the recogniser; it would be rejected *)
+let begins_with_start_code (d : coq_N list) : bool =
+  match d with
+  | N0 :: N0 :: Npos Coq_xH :: _ -> true
+  | N0 :: N0 :: N0 :: Npos Coq_xH :: _ -> true
+  | _ -> false
+
 let theorem_stream (fn : string) (args : int list) (d : coq_N list) : string option =
-  if not (Rg.wf_stream d) then None else
+  if not (begins_with_start_code d && Rg.wf_stream d) then None else
   let us = Rg.unstream d in
   let ns = L.map snd us in
   match fn with
